@@ -16,17 +16,21 @@ RULE = (
     "case = independent present/absent choice for ~95 UFO3 fontinfo attributes with spec-valid values (strings over all of Unicode minus controls that XML cannot carry, "
     "numbers integral/fractional/negative, bit lists incl. duplicated bits, name records, gasp records) x {TTF, OTF} x {ufoLib2, defcon}; the font is compiled, then - on the "
     "same source object - compiled again after switching styleMapStyleName; plus an enumerated slice: every Unicode scalar value (quick tier: BMP) as a one-character family "
-    "name through the PostScript-name fallback. Oracle = compile/save/reload succeed; a local restatement of (attribute -> table field, transformation) and of every documented "
-    "fallback formula (head, hhea, OS/2, post, name IDs 0-22 and name records, CFF top dict) is compared with the reloaded tables; the generated PostScript name matches "
+    "name through the PostScript-name fallback; plus variable-font cases: two masters sharing a generated info, a designspace whose lib (document-level or on an explicit "
+    "variable-font descriptor) carries a generated public.fontInfo override, compiled to a variable TTF / CFF2 and compared with the restatement applied to (info updated with the override). Oracle = compile/save/reload succeed; a local restatement of (attribute -> table field, transformation) and of every documented "
+    "fallback formula (head, hhea, vhea, OS/2 incl. panose, post, gasp, name IDs 0-22 and name records, CFF top dict and private dict - strictly without the subroutinizer, "
+    "modulo arrays it omits with it) is compared with the reloaded tables; the generated PostScript name matches "
     "^[!-~]+$ without []{}<>()/%; the source info is unchanged after compiling. Non-trivial = >= 10 attributes present and >= 1 non-ASCII string. Distinct = case hash."
 )
 ASSUMPTIONS = [
     "value ranges follow the UFO3 specification as enforced by ufoLib's validators; strings exclude C0 controls other than TAB/LF/CR (an XML plist cannot carry them)",
     "fields whose fallback would overflow their binary range (usWinAscent from a negative ascender + line gap, 16-bit signed metrics) are outside the domain: discarded and counted",
     "bit 1 of head.flags is recomputed by fontTools for glyf fonts and masked for TrueType",
+    "postscriptStemSnapH/V are strictly increasing (the order the Type 1/CFF specification prescribes, which the UFO3 specification refers to)",
+    "a variable-font override of vertical typo metrics or gasp records is only compared when the default master already produces a vhea / gasp table (the override mechanism edits existing tables)",
 ]
 N = {"quick": (8, 250), "thorough": (16, 1200)}
-FLOORS = {"non-ascii-string": 0.279, "otf": 0.25, ">=10-attributes": 0.238}  # a third of the measured frequency: a starving generator is a harness error, sampling noise is not
+FLOORS = {"non-ascii-string": 0.18, "otf": 0.17, ">=10-attributes": 0.15, "vf-info-override": 0.08, "vf-override-replaces-explicit": 0.07, "otf-unsubroutinized": 0.1}  # a third of the measured frequency: a starving generator is a harness error, sampling noise is not
 
 XML_OK = st.characters(blacklist_categories=("Cs",), blacklist_characters="".join(chr(i) for i in range(32) if i not in (9, 10, 13)) + "\x7f￾￿")
 text = st.text(alphabet=XML_OK, min_size=1, max_size=12)
@@ -71,7 +75,7 @@ ATTRS = {
     "openTypeVheaVertTypoAscender": intv, "openTypeVheaVertTypoDescender": intv, "openTypeVheaVertTypoLineGap": intv, "openTypeVheaCaretSlopeRise": intv, "openTypeVheaCaretSlopeRun": intv, "openTypeVheaCaretOffset": intv,
     "postscriptFontName": asciiname, "postscriptFullName": nametext, "postscriptSlantAngle": num, "postscriptUniqueID": st.integers(0, 10**6), "postscriptUnderlineThickness": num, "postscriptUnderlinePosition": num,
     "postscriptIsFixedPitch": st.booleans(), "postscriptBlueValues": evenlist(2, 6), "postscriptOtherBlues": evenlist(2, 4), "postscriptFamilyBlues": evenlist(2, 4), "postscriptFamilyOtherBlues": evenlist(2, 4),
-    "postscriptStemSnapH": st.lists(st.integers(1, 300), min_size=1, max_size=4), "postscriptStemSnapV": st.lists(st.integers(1, 300), min_size=1, max_size=4),
+    "postscriptStemSnapH": st.lists(st.integers(1, 300), min_size=1, max_size=4, unique=True).map(sorted), "postscriptStemSnapV": st.lists(st.integers(1, 300), min_size=1, max_size=4, unique=True).map(sorted),
     "postscriptBlueFuzz": st.integers(0, 5), "postscriptBlueShift": st.integers(0, 20), "postscriptBlueScale": st.floats(0.001, 0.2).map(lambda v: round(v, 4)), "postscriptForceBold": st.booleans(),
     "postscriptDefaultWidthX": posnum, "postscriptNominalWidthX": posnum, "postscriptWeightName": nametext, "postscriptDefaultCharacter": st.just("a"), "postscriptWindowsCharacterSet": st.integers(1, 20),
     "openTypeGaspRangeRecords": st.just([{"rangeMaxPPEM": 8, "rangeGaspBehavior": [0, 1]}, {"rangeMaxPPEM": 65535, "rangeGaspBehavior": [1]}]),
@@ -83,11 +87,23 @@ ATTRS = {
 def _case(draw):
     info = draw(st.fixed_dictionaries({}, optional=ATTRS))
     return {"kind": "info", "info": info, "module": draw(st.sampled_from(["ufoLib2", "defcon"])), "flavour": draw(st.sampled_from(["otf", "ttf"])),
-            "second_style": draw(st.sampled_from([None, None, "bold", "italic", "regular"]))}
+            "second_style": draw(st.sampled_from([None, None, "bold", "italic", "regular"])), "optimizeCFF": draw(st.sampled_from([0, 2, 2]))}
+
+
+OVERRIDABLE = [k for k in ATTRS if k not in ("unitsPerEm", "postscriptDefaultWidthX", "postscriptNominalWidthX", "postscriptDefaultCharacter", "openTypeNameRecords",
+                                             "openTypeVheaVertTypoAscender", "openTypeVheaVertTypoDescender", "openTypeVheaVertTypoLineGap")]
+
+
+@st.composite
+def _vfcase(draw):
+    base = draw(st.fixed_dictionaries({}, optional=ATTRS))
+    over = draw(st.fixed_dictionaries({}, optional={k: ATTRS[k] for k in OVERRIDABLE}).filter(lambda d: len(d) >= 1))
+    return {"kind": "vfinfo", "info": base, "override": over, "module": draw(st.sampled_from(["ufoLib2", "defcon"])), "flavour": draw(st.sampled_from(["otf", "ttf"])),
+            "explicit_vf": draw(st.booleans())}
 
 
 def strategy(tier):
-    return _case()
+    return st.one_of(_case(), _case(), _vfcase())
 
 
 def enumerate_cases(tier):
@@ -104,6 +120,9 @@ EXHAUSTIVE_SLICE = True
 def sample_view(case):
     if case["kind"] == "psname":
         return case
+    if case["kind"] == "vfinfo":
+        return {"kind": "vfinfo", "module": case["module"], "flavour": case["flavour"], "explicit_vf": case["explicit_vf"], "attributes_present": len(case["info"]),
+                "override": {k: case["override"][k] for k in sorted(case["override"])[:25]}}
     return {"module": case["module"], "flavour": case["flavour"], "second_style": case["second_style"], "attributes_present": len(case["info"]),
             "info": {k: case["info"][k] for k in sorted(case["info"])[:25]}}
 
@@ -220,6 +239,37 @@ def expected(i):
     e["post.underlinePosition"] = R(up)
     e["post.underlineThickness"] = R(ut)
     e["post.isFixedPitch"] = int(bool(g("postscriptIsFixedPitch")))
+    e["post.italicAngle"] = float(ital)
+    e["_panose"] = list(g("openTypeOS2Panose") or [0] * 10)
+    if all(g(k) is not None for k in ("openTypeVheaVertTypoAscender", "openTypeVheaVertTypoDescender", "openTypeVheaVertTypoLineGap")):
+        e["_vhea"] = {"ascent": R(g("openTypeVheaVertTypoAscender")), "descent": R(g("openTypeVheaVertTypoDescender")), "lineGap": R(g("openTypeVheaVertTypoLineGap")),
+                      "caretSlopeRise": R(g("openTypeVheaCaretSlopeRise") or 0), "caretSlopeRun": R(g("openTypeVheaCaretSlopeRun") if g("openTypeVheaCaretSlopeRun") is not None else 1),
+                      "caretOffset": R(g("openTypeVheaCaretOffset") or 0)}
+    else:
+        e["_vhea"] = None
+    gasp = g("openTypeGaspRangeRecords")
+    e["_gasp"] = {r["rangeMaxPPEM"]: bitsnum(r["rangeGaspBehavior"], 0, 4) for r in gasp} if gasp else None
+    # CFF top dict / private dict
+    blues = {k: [R(v) for v in (g("postscript" + k) or [])] for k in ("BlueValues", "OtherBlues", "FamilyBlues", "FamilyOtherBlues")}
+    bscale = g("postscriptBlueScale")
+    if bscale is None:
+        mz = 0
+        for key in ("postscriptBlueValues", "postscriptOtherBlues"):
+            l = g(key) or []
+            for x, y in zip(l[:-1:2], l[1::2]):
+                mz = max(mz, abs(y - x))
+        bscale = 3 / (4 * mz) if mz else 0.039625
+    private = {}
+    if any(blues.values()):
+        private.update(BlueFuzz=R(g("postscriptBlueFuzz") or 0), BlueShift=R(g("postscriptBlueShift") if g("postscriptBlueShift") is not None else 7), BlueScale=bscale,
+                       ForceBold=int(bool(g("postscriptForceBold"))))
+        private.update({k: v for k, v in blues.items() if v})
+    sh, sv = [R(v) for v in (g("postscriptStemSnapH") or [])], [R(v) for v in (g("postscriptStemSnapV") or [])]
+    if sh and sv:
+        private.update(StemSnapH=sh, StdHW=sh[0], StemSnapV=sv, StdVW=sv[0])
+    e["_cff"] = {"version": "%d.%d" % (vM, vm), "Notice": g("trademark") or "", "Copyright": g("copyright") or "", "FullName": g("postscriptFullName") or "%s %s" % (pfam, psub), "FamilyName": pfam,
+                 "Weight": g("postscriptWeightName"), "isFixedPitch": int(bool(g("postscriptIsFixedPitch"))), "ItalicAngle": float(ital), "UnderlinePosition": R(up), "UnderlineThickness": R(ut),
+                 "FontMatrix": [1.0 / R(upm), 0, 0, 1.0 / R(upm), 0, 0], "private": private}
     ver = g("openTypeNameVersion") or "Version %d.%s" % (vM, str(vm).zfill(3))
     psn_explicit = g("postscriptFontName")
     vend = g("openTypeOS2VendorID") or "NONE"
@@ -252,6 +302,64 @@ def check_tables(t, e, info, flavour, label):
                             related={x: info.get(x) for x in info if x.lower().replace("opentype", "").startswith(("os2", "hhea", "head", "asc", "desc", "units", "style", "italic", "xh", "cap", "post"))})
 
 
+PS_PLAIN = {chr(i) for i in range(32, 127)} - EXC
+
+
+# the subroutinizer (cffsubr/tx) re-serialises the private dict and omits arrays it considers redundant or malformed (a one-element StemSnap equal to Std[HV]W, non-increasing
+# StemSnap, FamilyOtherBlues without FamilyBlues, ...): with it on, a stored array must equal the expectation but may be absent; without it every key is compared strictly
+TX_MAY_DROP = ("StemSnapH", "StemSnapV", "FamilyBlues", "FamilyOtherBlues", "BlueValues", "OtherBlues")
+
+
+def check_extra(t, e, flavour, label, vf=False, subroutinized=True):
+    got = list(t["OS/2"].panose.__dict__.values()) if hasattr(t["OS/2"].panose, "__dict__") else None
+    pan = t["OS/2"].panose
+    got = [pan.bFamilyType, pan.bSerifStyle, pan.bWeight, pan.bProportion, pan.bContrast, pan.bStrokeVariation, pan.bArmStyle, pan.bLetterForm, pan.bMidline, pan.bXHeight]
+    if got != e["_panose"]:
+        raise Violation("OS/2 panose differs from the explicit value / documented fallback (%s)" % label, got=got, expected=e["_panose"])
+    if e["_vhea"] is not None and (not vf or "vhea" in t):
+        if "vhea" not in t:
+            raise Violation("vertical typo metrics are all set but no vhea table was compiled (%s)" % label)
+        for k, v in e["_vhea"].items():
+            if getattr(t["vhea"], k) != v:
+                raise Violation("vhea field differs from the explicit value / documented fallback (%s)" % label, field=k, got=getattr(t["vhea"], k), expected=v)
+    if e["_gasp"] is not None and flavour == "ttf" and (not vf or "gasp" in t):
+        if "gasp" not in t or dict(t["gasp"].gaspRange) != e["_gasp"]:
+            raise Violation("gasp table differs from openTypeGaspRangeRecords (%s)" % label, got=dict(t["gasp"].gaspRange) if "gasp" in t else None, expected=e["_gasp"])
+    if flavour == "otf" and "CFF " in t:
+        td = t["CFF "].cff.topDictIndex[0]
+        c = e["_cff"]
+        for k, v in c.items():
+            if k == "private":
+                continue
+            got = getattr(td, k, None)
+            if k in ("Notice", "Copyright"):
+                if not set(v) <= PS_PLAIN:
+                    continue  # reduced to ASCII / delimiters dropped: checked for ASCII-ness by the caller
+            elif isinstance(v, str) and not v.isascii():
+                continue
+            if k == "FontMatrix":
+                ok = all(abs(a - b) <= 1e-4 * abs(b) for a, b in zip(got, v))  # CFF reals carry few digits
+            elif isinstance(v, float):
+                ok = got is not None and abs(got - v) < 1e-3
+            elif isinstance(v, str) or v is None:
+                ok = (got or "") == (v or "")  # an empty string is not stored
+            else:
+                ok = got == v
+            if not ok:
+                raise Violation("CFF top dict field differs from the explicit value / documented fallback (%s)" % label, field=k, got=got, expected=v)
+        priv = td.Private
+        for k, v in c["private"].items():
+            got = getattr(priv, k, None)  # resolves CFF defaults that are not stored
+            if got is None and subroutinized and k in TX_MAY_DROP:
+                continue
+            if isinstance(v, float):
+                ok = got is not None and abs(got - v) < 1e-4 * max(1, abs(v))
+            else:
+                ok = got == v
+            if not ok:
+                raise Violation("CFF private dict field differs from the explicit value / documented fallback (%s)" % label, field=k, got=got, expected=v)
+
+
 def run_psname(case, ctx):
     import ufoLib2
     from ufo2ft.fontInfoData import postscriptFontNameFallback
@@ -272,30 +380,114 @@ def run_psname(case, ctx):
     ctx.nontrivial()
 
 
+def in_range(e):
+    if not (0 <= e["OS/2.usWinAscent"] <= 65535 and 0 <= e["OS/2.usWinDescent"] <= 65535):
+        raise Discard("fallback for an unsigned OS/2 win metric is out of range")
+    if not all(-32768 <= e[k] <= 32767 for k in e if not k.startswith("_") and k != "names" and isinstance(e[k], int) and not k.startswith(("head.created", "head.flags", "OS/2.us", "OS/2.fs", "OS/2.ul"))):
+        raise Discard("a derived metric exceeds the signed 16-bit range")
+
+
+def run_vf(case, ctx):
+    """variable font whose designspace lib carries public.fontInfo overrides: every overridden attribute (and every fallback that derives from one) must show in the VF"""
+    import ufo2ft
+    from fontTools.designspaceLib import AxisDescriptor, DesignSpaceDocument, SourceDescriptor, VariableFontDescriptor, RangeAxisSubsetDescriptor
+    from fontTools.ttLib import TTFont
+
+    base, over, flavour = dict(case["info"]), dict(case["override"]), case["flavour"]
+    merged = dict(base)
+    merged.update(over)
+    in_range(expected(base))
+    e = expected(merged)
+    in_range(e)
+    module = S.ufo_module(case["module"])
+    fonts = []
+    for k in (0, 1):
+        spec = {"info": base, "glyphs": [{"name": "a", "width": 500 + 100 * k, "unicodes": [0x61], "contours": [[[0, 0, "line"], [100 + 50 * k, 0, "line"], [100, 100 + 20 * k, "line"]]]},
+                                         {"name": ".notdef", "width": 500, "contours": []}]}
+        fonts.append(S.build(spec, module))
+    ds = DesignSpaceDocument()
+    a = AxisDescriptor()
+    a.name, a.tag, a.minimum, a.default, a.maximum = "Weight", "wght", 400, 400, 700
+    ds.addAxis(a)
+    for k, f in enumerate(fonts):
+        s = SourceDescriptor()
+        s.font, s.name, s.location = f, "master%d" % k, {"Weight": 400 + 300 * k}
+        ds.addSource(s)
+    if case["explicit_vf"]:
+        vf = VariableFontDescriptor(name="TestVF", axisSubsets=[RangeAxisSubsetDescriptor(name="Weight")])
+        vf.lib["public.fontInfo"] = over
+        ds.addVariableFont(vf)
+    else:
+        ds.lib["public.fontInfo"] = over
+    before = [SN.font_snapshot(f)["info"] for f in fonts]
+    comp = ufo2ft.compileVariableCFF2 if flavour == "otf" else ufo2ft.compileVariableTTF
+    with guard("compile a variable font with public.fontInfo overrides"):
+        t = comp(ds)
+        b = io.BytesIO()
+        t.save(b)
+        t = TTFont(io.BytesIO(b.getvalue()))
+    if [SN.font_snapshot(f)["info"] for f in fonts] != before:
+        raise Violation("compiling a variable font with info overrides modified a source font's info")
+    check_tables(t, e, merged, flavour, "variable font with public.fontInfo overrides")
+    check_extra(t, e, flavour, "variable font with public.fontInfo overrides", vf=True)
+    recs = {(r["nameID"], r["platformID"], r["encodingID"], r["languageID"]) for r in merged.get("openTypeNameRecords", [])}
+    names = dict(e["names"])
+    if e["_uid_explicit"]:
+        names[3] = e["_uid_explicit"]
+    if e["_psname_explicit"]:
+        names[6] = e["_psname_explicit"]
+    for nid, v in names.items():
+        if any(k[0] == nid and k[1] == 3 and k[3] == 0x409 for k in recs):
+            continue
+        enc = 10 if any(ord(c) > 0xFFFF for c in v) else 1
+        n = t["name"].getName(nid, 3, enc, 0x409)
+        if n is None or n.toUnicode() != v:
+            raise Violation("variable-font name record differs from the overridden value / documented fallback", nameID=nid, got=n.toUnicode() if n else None, expected=v,
+                            overridden=sorted(over))
+    if not e["_psname_explicit"] and not any(k[0] == 6 for k in recs):
+        n6 = t["name"].getName(6, 3, 1, 0x409)
+        if n6 is None or not ps_ok(n6.toUnicode()):
+            raise Violation("generated PostScript font name (name ID 6) of the variable font contains a space, control, delimiter or non-ASCII character", name=n6.toUnicode() if n6 else None)
+    ctx.label("vf-info-override")
+    ctx.label("vf-" + flavour)
+    if case["explicit_vf"]:
+        ctx.label("vf-explicit-descriptor")
+    changed = [k for k in over if base.get(k) != over[k]]
+    if any(k in base for k in changed):
+        ctx.label("vf-override-replaces-explicit")
+    if any(k not in base for k in changed):
+        ctx.label("vf-override-adds-absent")
+    ctx.nontrivial(bool(changed))
+
+
 def run_case(case, ctx):
     if case["kind"] == "psname":
         return run_psname(case, ctx)
+    if case["kind"] == "vfinfo":
+        return run_vf(case, ctx)
     import ufo2ft
     from fontTools.ttLib import TTFont
 
     info, flavour = dict(case["info"]), case["flavour"]
     e = expected(info)
-    if not (0 <= e["OS/2.usWinAscent"] <= 65535 and 0 <= e["OS/2.usWinDescent"] <= 65535):
-        raise Discard("fallback for an unsigned OS/2 win metric is out of range")
-    if not all(-32768 <= e[k] <= 32767 for k in e if not k.startswith("_") and k != "names" and isinstance(e[k], int) and not k.startswith(("head.created", "head.flags", "OS/2.us", "OS/2.fs", "OS/2.ul"))):
-        raise Discard("a derived metric exceeds the signed 16-bit range")
+    in_range(e)
     spec = {"info": info, "glyphs": [{"name": "a", "width": 500, "unicodes": [0x61], "contours": [[[0, 0, "line"], [100, 0, "line"], [100, 100, "line"]]]}, {"name": ".notdef", "width": 500, "contours": []}]}
     font = S.build(spec, S.ufo_module(case["module"]))
     before = SN.font_snapshot(font)["info"]
     comp = ufo2ft.compileOTF if flavour == "otf" else ufo2ft.compileTTF
+    opt = case.get("optimizeCFF", 2)
+    kw = {"optimizeCFF": opt} if flavour == "otf" else {}
     with guard("compile with the generated font info"):
-        t = comp(font)
+        t = comp(font, **kw)
         b = io.BytesIO()
         t.save(b)
         t = TTFont(io.BytesIO(b.getvalue()))
     if SN.font_snapshot(font)["info"] != before:
         raise Violation("compiling modified the source font info")
     check_tables(t, e, info, flavour, "first compile")
+    check_extra(t, e, flavour, "first compile", subroutinized=opt == 2)
+    if flavour == "otf" and opt == 0:
+        ctx.label("otf-unsubroutinized")
     # names
     recs = {(r["nameID"], r["platformID"], r["encodingID"], r["languageID"]): r["string"] for r in info.get("openTypeNameRecords", [])}
     n6 = t["name"].getName(6, 3, 1, 0x409)
@@ -373,6 +565,6 @@ MANIFEST = {
     "technique": "property-based testing (Hypothesis) against a local restatement of the font-info mapping and fallback formulas + exhaustive enumeration of Unicode for the PostScript-name fallback",
     "text": "Generated subsets of the ~95 fontinfo attributes with spec-valid values; the compiled, saved and reloaded tables are compared field by field with an independent "
     "restatement of explicit-value mapping and fallback formulas; the PostScript name character set is checked on every compile and, exhaustively, for every Unicode scalar "
-    "value through the fallback function. Counterexample search only (the enumerated slice is exhaustive).",
+    "value through the fallback function. Variable fonts with designspace public.fontInfo overrides are compared with the same restatement applied to the merged info. Counterexample search only (the enumerated slice is exhaustive).",
     "note": "Inputs whose fallback overflows a binary field are discarded and counted. head.flags bit 1 is masked for TrueType (recomputed by fontTools).",
 }
